@@ -17,6 +17,7 @@ import Depccg.Lazy
 import Depccg.Print.More
 import Depccg.Print.Json
 import Depccg.Print.Html
+import Depccg.Print.XmlText
 
 namespace Depccg
 namespace Cli
@@ -112,12 +113,14 @@ inductive Fmt where
   | auto | autoExt | conll | ptb | deriv | ja
   | prologEn | prologJa          -- `--format prolog` under the English / Japanese program
   | json | html
+  | xml | jiggEn | jiggJa        -- `--format jigg_xml` under the English / Japanese program (rule names / symbols)
   deriving DecidableEq, Repr
 
 def Fmt.fn : Fmt → Tree → Except Err Str
   | .auto => autoOf | .autoExt => autoExtOf | .conll => conllOf | .ptb => ptbOf | .deriv => derivOf | .ja => jaOf
   | .prologEn => fun _ => .ok [] | .prologJa => fun _ => .ok []      -- (not record formats: see `printText`)
   | .json => fun _ => .ok [] | .html => fun _ => .ok []
+  | .xml => fun _ => .ok [] | .jiggEn => fun _ => .ok [] | .jiggJa => fun _ => .ok []
 
 /-- the trees of the results, for the formats that print no score -/
 def treesOnly (results : List SentResult) : List (List Tree) :=
@@ -140,6 +143,9 @@ def printText (f : Fmt) (results : List SentResult) : Except Err Str :=
   | .prologEn => addNewline (prologEn (treesOnly results))
   | .prologJa => addNewline (prologJa (treesOnly results))
   | .json => .ok (jsonText (results.map scoredK) ++ [10])
+  | .xml => addNewline (Xml.xmlText (treesOnly results))
+  | .jiggEn => addNewline (Xml.jiggText false (results.map scoredK))
+  | .jiggJa => addNewline (Xml.jiggText true (results.map scoredK))
   | .html => addNewline (toMathml (results.map fun r => (scoredK r).map fun (p : Tree × Option Int) => (p.1, some (scoreText5e p.2))))
   | f =>
     match toStringLines f.fn (f == Fmt.conll) (results.map scored) with
